@@ -89,6 +89,17 @@ func c19Scenarios() []c19Scenario {
 			}
 			gs["did"] = cdc.MustMarshalJSON(&didtypes.GenesisState{Documents: docs})
 		}},
+		{name: "malformed-did-update-attempted", setup: func(e *domEnv, w *world.World) {
+			// an owner-signed update to a document with a dangling relationship: refused by a correct chain; if a tree stores it,
+			// whatever the upgrade does with the stored state must still complete
+			k := e.DidKey
+			doc := k.doc("D1", e.Did)
+			doc.AssertionMethods = []didtypes.VerificationRelationship{didtypes.NewVerificationRelationship(k.vmID(e.Did, 2))}
+			w.Send(world.TxSpec{Msgs: []sdk.Msg{&didtypes.MsgUpdateDIDRequest{Did: e.Did, Document: doc, VerificationMethodId: k.vmID(e.Did, 1), Signature: k.sign(doc, 0, 1), FromAddress: e.A.Bech}}, Signers: s(e.A)})
+			noAuth := k.doc("D1", e.Did)
+			noAuth.Authentications = nil
+			w.Send(world.TxSpec{Msgs: []sdk.Msg{&didtypes.MsgUpdateDIDRequest{Did: e.Did, Document: noAuth, VerificationMethodId: k.vmID(e.Did, 1), Signature: k.sign(noAuth, 0, 1), FromAddress: e.A.Bech}}, Signers: s(e.A)})
+		}},
 		{name: "many-records", setup: func(e *domEnv, w *world.World) {
 			for i := 0; i < 5; i++ {
 				must(w, world.TxSpec{Msgs: []sdk.Msg{aoltypes.NewMsgAddRecordRequest("a", []byte{byte(i)}, []byte(strings.Repeat("v", i)), e.W.Bech, e.A.Bech, "")}, Signers: s(e.W)})
